@@ -28,12 +28,13 @@ type SLate struct {
 
 type SPlan struct {
 	Sessions [][]et.Event `json:"sessions"` // key g1, in order
+	Twin     bool         `json:"twin,omitempty"` // the key g10 (g1 is a prefix of it) has sessions over the same stretches of time
 	Pusher   et.Event     `json:"pusher"`   // key g2
 	Late     []SLate      `json:"late"`
 }
 
 func genSessionLate(t *rapid.T) Case {
-	c := Case{Kind: "session", Groups: 2, Barrier: true}
+	c := Case{Kind: "session", Groups: 3, Barrier: true}
 	c.SizeMs = rapid.SampledFrom([]int64{500, 1000, 2000}).Draw(t, "timeout")
 	T := c.SizeMs
 	c.OOOMs = rapid.SampledFrom([]int64{0, T / 2, 2 * T}).Draw(t, "ooo")
@@ -56,8 +57,9 @@ func genSessionLate(t *rapid.T) Case {
 		// gap to the next session: above the timeout, from barely to clearly
 		cur += T + rapid.SampledFrom([]int64{1, 2, T / 4, T / 2, T, 3 * T}).Draw(t, "gap")
 	}
+	p.Twin = rapid.Bool().Draw(t, "twin")
 	lastEnd := p.Sessions[ns-1][len(p.Sessions[ns-1])-1].TS + T
-	p.Pusher = et.Event{ID: id, TS: lastEnd + c.OOOMs + rapid.Int64Range(0, T).Draw(t, "extra"), G: "g2", V: 1}
+	p.Pusher = et.Event{ID: id, TS: lastEnd + c.OOOMs + rapid.Int64Range(0, T).Draw(t, "extra"), G: "zz", V: 1}
 	id++
 	wm := p.Pusher.TS - c.OOOMs
 	nl := rapid.IntRange(1, 3).Draw(t, "nlate")
@@ -91,9 +93,13 @@ func runSessionLate(c Case) (res pbt.Result) {
 	}
 	defer in.Stop()
 	emit := func(e et.Event) { in.Emit(et.Row(e, "ms", "int64", true)) }
+	twinID := 500000
 	for _, s := range p.Sessions {
 		for _, e := range s {
 			emit(e)
+			if p.Twin {
+				emit(et.Event{ID: twinID + e.ID, TS: e.TS, G: "g10", V: 1}) // same timestamp: a later one would make the next row of g1 late
+			}
 		}
 	}
 	emit(p.Pusher)
@@ -232,6 +238,28 @@ func runSessionLate(c Case) (res pbt.Result) {
 	}
 	if len(latest) != ns {
 		res.Add(pbt.D("session-count", "late rows strictly inside fired sessions created or removed sessions: %d window ids for %d sessions", len(latest), ns))
+	}
+	if p.Twin {
+		// the sessions of g10 lie over the same stretches of time; late rows of g1 are none of their business
+		var r2 pbt.Result
+		per := map[string]int{}
+		for _, r := range parse(in.Deliveries(), &r2) {
+			if r.g != "g10" {
+				continue
+			}
+			per[r.wid]++
+			for _, id := range r.ids {
+				if id < twinID {
+					res.Add(pbt.D("late-row-in-foreign-session", "a session of g10 [%d,%d) contains id %d, a row of g1", r.ws, r.we, id))
+				}
+			}
+		}
+		for wid, n := range per {
+			if n > 1 {
+				res.Add(pbt.D("foreign-session-redelivered", "session %s of g10 was delivered %d times although only g1 received late rows", wid, n))
+			}
+		}
+		res.Class("planted:prefix-related-keys")
 	}
 	res.Class("kind:session")
 	res.Class("planted:session-late")
